@@ -85,9 +85,10 @@ func consumeUnixFSData(remaining []byte, ma ipld.MapAssembler) error {
 				remaining = remaining[n:]
 				qp.ListEntry(la, qp.Int(int64(blockSize)))
 			case protowire.BytesType:
-				if la != nil {
+				if la != nil || packedBlockSizes {
 					return errors.New("cannot build blocksizes twice")
 				}
+				packedBlockSizes = true
 				blockSizesBytes, n := protowire.ConsumeBytes(remaining)
 				if n < 0 {
 					return protowire.ParseError(n)
